@@ -273,7 +273,17 @@ fn a_from(rng: &mut Rng, xs: &[i64]) -> Arg {
     Arg::I(*rng.pick(xs) as i128)
 }
 fn a_tok(rng: &mut Rng) -> Arg {
-    Arg::B(format!("TOK#{}", rng.below(1000)).into_bytes())
+    // what the caller's function returns: short markers, and values of the usual signature / tag /
+    // ciphertext sizes
+    let mut t = format!("TOK#{}", rng.below(1000)).into_bytes();
+    if rng.bool() {
+        let n = *rng.pick(&[8usize, 12, 16, 24, 32, 48, 64, 66, 96, 128, 132, 256, 512]);
+        while t.len() < n {
+            t.push((t.len() as u8).wrapping_mul(37));
+        }
+        t.truncate(n);
+    }
+    Arg::B(t)
 }
 fn a_fail(rng: &mut Rng) -> Arg {
     // 0 = creator succeeds, 1 = creator fails
